@@ -22,24 +22,42 @@ from concurrent.futures import ThreadPoolExecutor
 from pathlib import Path
 
 MANIFEST = dict(
-    text=("Lean theorems about an instrumented cost semantics (`BS.Depth`: loops cost 0, a call costs 1 + its callee, a structural "
-          "==/!= between tags costs eqDepth) that follows the call graph of bs4: for all trees, receivers and ancestor contexts the "
-          "repaired accounting of parse (feed/_popToTag/popTag with its == on the preserve/string-container stacks: the structural "
-          "branch is proved unreachable), decode/encode/prettify/str/hash, copy/deepcopy, pickling a document, get_text/strings, "
-          ".string, every find_* family incl. find_all(name, string=), and every editing call (extract, insert, append, extend, "
-          "replace_with, wrap, unwrap, insert_before/after, clear, decompose, smooth, string setter, index) is bounded by an explicit "
-          "constant (depth_bounded_*); and witness theorems that the unrepaired accountings are unbounded on explicit families "
-          "(decodeOld/deepcopyOld on a chain with trailing text or a trailing sibling at every level, .string/find_all(name,string=)/"
-          "smooth/_is_xml on a chain, pickling a linked root). Tie (measurement, not proof): max Python call depth under sys.setprofile "
-          "of ~110 operations x 16 fixed + seeded random shape families (hand-linked and parsed) at depths 50..400 must not grow (<= 3), the same family beyond the recursion limit "
-          "must not raise RecursionError, and the measured growth must equal the growth the Lean accounting computes for the same tree."),
+    text=("Lean theorems about an instrumented cost semantics (`BS.Depth`: a loop costs the deepest of its iterations, a call one frame "
+          "plus its callee, a structural ==/!= between tags costs eqDepth) that follows the call graph of bs4. REFINEMENT of the main "
+          "anchor: the statement-by-statement mirror of `_event_stream` (loop + explicit tag stack, both the self_and_descendants form "
+          "and the descendants form used by decode_contents/__deepcopy__/hidden receivers) yields exactly the recursive skeleton and its "
+          "deepest comparison IS the recursive characterisation evCmp the accountings use (event_stream_refines_skeleton, "
+          "event_stream_deepest_comparison, event_stream_contents_refines, event_stream_identity_makes_no_call). PARSE: for every "
+          "tokenizer event sequence and every pair of builder tables (overlapping or not) the side stacks are the tag stack filtered "
+          "by name, so popTag's == never recurses (depth_bounded_parse, for any cost of that recursion), and after _feed nothing is "
+          "left on the parser stacks (after_parse_no_tree_object); field-level mirror of BeautifulSoup.__dict__/__getstate__: the "
+          "pickled state holds no tree object (getstate_fields_hold_no_tree_object, pickled_state_has_no_tree_object, "
+          "depth_bounded_pickle). For all trees, receivers, ancestor contexts, queries and argument lists: decode/encode/prettify/str/"
+          "hash/*_contents, copy/deepcopy, get_text/strings/.string, every find_* family incl. string= (the .string getter is read "
+          "exactly where matches_tag's earlier exits are passed: matching_reads_string_only_where_reached), and every editing call "
+          "(parametrised by the cost of an 'are these the same object' test; bounded for identity tests) are bounded by explicit "
+          "constants, all below the generated sys.getrecursionlimit() (handled_beyond_the_recursion_limit). DEPENDENCE/witness theorems: "
+          "the unrepaired forms grow linearly on explicit families (!= in _event_stream, recursive .string/smooth/_is_xml, links kept "
+          "by __getstate__), and so do the variants 'only the outermost <pre> is pushed', 'elif in popTag', '== instead of is in "
+          "replace_with/index'. TIE: (1) max call depth under sys.setprofile of ~150 operations (incl. editing histories with near "
+          "copies as arguments/siblings, parse under 4 builder configurations, the pure-Python pickler) x ~45 shape families at "
+          "depths 50/100/200 (+400/800) must not grow and must survive depth 3000 (6000) with the default recursion limit, and must "
+          "equal the growth the Lean accounting computes for the same tree; (2) differential streams against the real code: "
+          "_event_stream events on random bushy trees vs mirror and skeleton; __dict__/__getstate__() field classes vs the mirror "
+          "over parse/insert/copy/unpickle histories and configurations; which tags' .string a search reads vs the mirror of "
+          "matches_tag; (3) runtime oracles of the proof invariants on the running parser (side stacks = filtered tag stack; "
+          "after-parse state free of tree objects)."),
     design="7/C11",
     note=("PARTIAL by nature: the theorems are about an accounting of the code's call graph; that the accounting matches CPython is "
-          "measured (growth between d and 2d, warm-up first, threshold 3; absolute depths are never compared). The html.parser "
-          "tokenizer, soupsieve (select) and the C pickler are outside the accounting: parse and pickle are measured end to end, "
-          "select is recorded only. `a == b`, `x in tag` (list containment uses ==) and pickling a single Tag (default pickling walks "
-          "the links) are inherently recursive, not in the property's list of operations: recorded, never flagged."),
-    technique="Lean 4 proof over an instrumented call-depth semantics + sys.setprofile measurement at d/2d/beyond the recursion limit (subprocess-isolated)",
+          "measured (growth between depths, warm-up first, threshold 3 — for the inhomogeneous seeded shapes one frame per 8 levels; "
+          "absolute depths are never compared). Leaf helpers that never receive a tree-navigating argument (formatter, constructors, "
+          "html.parser's tokenizer, MatchRule) are constants of the accounting; the C pickler is modelled as 'walks every element "
+          "reachable from a tree object in the state' and measured with the pure-Python pickler; soupsieve (select) is recorded only. "
+          "The pointer guards inside extract/_insert (previous_element is not next_element, new_child.parent is self) are identity "
+          "tests the accounting does not parametrise: they are exercised by the near-copy/twin histories only. `a == b`, `x in tag` "
+          "and pickling a single Tag are inherently recursive, not in the property's list: recorded (eq_copy doubles as positive "
+          "control), never flagged."),
+    technique="Lean 4 refinement + invariant proofs over an instrumented call-depth semantics; sys.setprofile measurement at several depths and beyond the recursion limit (subprocess-isolated); differential streams (events, pickled state, .string reads); runtime invariant oracles",
 )
 
 GROWTH_MAX = 3          # "zero growth" threshold calibrated in DESIGN.md (a real recursion shows >= d)
@@ -61,6 +79,9 @@ FAMILIES = [
     "alternating",      # <a><b><a>…</a>t</b>t</a>t              alternating names, trailing text
     "attrs_same",       # <a class="c">…</a>t                    identical attribute at every level, trailing text
     "attrs_distinct",   # <a id="k">…</a>t                       distinct attribute at every level, trailing text
+    "attrs_multi",      # <a class="c k" id="i">…</a>t            multi-valued + plain attributes at every level, trailing text
+    "chain_comment",    # <a><a>…</a><!--c--></a><!--c-->        a trailing comment (a special string class) at every level
+    "chain_entity",     # <a><a>…</a>a&amp;b&lt;c</a>…            trailing text that needs entity substitution at every level
     "repeated",         # <div><p>x</p> … <p>x</p></div>         identical sub-structure before and after every level
     "pre_chain",        # <pre><a><a>…</a>t</a>t</pre>            chain inside <pre> (popTag's == on the preserve stack)
     "pre_nested",       # <pre><pre>…</pre>t</pre>t               nested whitespace-preserving tags, trailing text
@@ -73,13 +94,57 @@ FAMILIES = [
     "nest3_pre", "nest3_textarea", "nest3_rt", "nest3_rp", "nest3_template",
     # markup only: <X>t<X>t<X>t…</X></X></X> — n nested X, each starting with the same text
     "nestlead_pre", "nestlead_textarea", "nestlead_rt", "nestlead_template",
+    "style_head",       # <style>x</style><b><b>…</b>t</b>t   markup only: a string container closed before the deep part
+    "both_unclosed_end",  # <b><b>…<style>x                  markup only: a string container still open at the end of input
+    # markup only, with a builder configuration: tags that are in BOTH tables / in neither
+    "nest3_rt@pw_plus", "nestlead_rt@pw_plus", "nestlead_template@pw_plus", "style_head@pw_plus", "both_unclosed_end@pw_plus",
+    "chain_text@pw_plus", "pre_nested@pw_plus",
+    "nest3_pre@sc_plus", "nestlead_pre@sc_plus", "nestlead_textarea@sc_plus", "pre_chain@sc_plus", "style_head@sc_plus",
+    "chain_text@sc_plus",
+    "nest3_pre@empty", "nestlead_rt@empty", "chain_text@empty", "style_head@empty",
     "twins",            # <a> <a><a>…x…</a></a> <a><a>…x…</a></a> </a>   two identical deep chains side by side
     "builderless",      # Tag(name="a") nested by hand (known_xml is None), trailing text
 ]
 PARSED_ONLY_OPS_FAMILIES = [f for f in FAMILIES if f != "builderless"]
 
 
+# builder configurations (the tables `pushTag`/`popTag`/`endData`/`string_container` consult). A family name may carry one:
+# "<base>@<config>"; such families are parsed (never hand-linked) with these constructor arguments.
+CONFIG_NAMES = ("default", "pw_plus", "sc_plus", "empty")
+
+
+def split_family(fam: str):
+    base, _, cfg = fam.partition("@")
+    return base, (cfg or "default")
+
+
+def config_kwargs(name: str) -> dict:
+    if name == "default":
+        return {}
+    from bs4.builder import HTMLTreeBuilder
+    from bs4.element import RubyTextString, PreformattedString
+    if name == "pw_plus":      # "do not re-indent these either": whitespace-preserving tags that are ALSO string containers
+        return {"preserve_whitespace_tags": set(HTMLTreeBuilder.DEFAULT_PRESERVE_WHITESPACE_TAGS) | {"script", "style", "rt", "rp", "template"}}
+    if name == "sc_plus":      # string containers that are ALSO whitespace-preserving
+        d = dict(HTMLTreeBuilder.DEFAULT_STRING_CONTAINERS)
+        d.update({"pre": RubyTextString, "textarea": PreformattedString, "b": RubyTextString})
+        return {"string_containers": d}
+    if name == "empty":
+        return {"preserve_whitespace_tags": set(), "string_containers": {}}
+    raise KeyError(name)
+
+
+def config_tables(name: str):
+    """(whitespace-preserving name codes, string-container name codes) as the LIVE builder holds them"""
+    from bs4.builder import HTMLParserTreeBuilder
+    b = HTMLParserTreeBuilder(**config_kwargs(name))
+    pre = sorted(NAME_CODE[x] for x in b.preserve_whitespace_tags if x in NAME_CODE)
+    sc = sorted(NAME_CODE[x] for x in b.string_containers if x in NAME_CODE)
+    return pre, sc
+
+
 def family_events(fam: str, n: int):
+    fam = split_family(fam)[0]
     ev = []
     o, c, t = (lambda nm, at, lv: ev.append(("o", nm, at, lv))), (lambda: ev.append(("c",))), (lambda s: ev.append(("t", s)))
     if fam == "chain":
@@ -126,6 +191,24 @@ def family_events(fam: str, n: int):
         for k in range(n):
             c()
             t("t")
+    elif fam == "attrs_multi":
+        for k in range(n):
+            o("a", {"class": "c k", "id": "i"}, k)
+        for k in range(n):
+            c()
+            t("t")
+    elif fam == "chain_comment":
+        for k in range(n):
+            o("a", {}, k)
+        for k in range(n):
+            c()
+            ev.append(("t", "c", "Comment"))
+    elif fam == "chain_entity":
+        for k in range(n):
+            o("a", {}, k)
+        for k in range(n):
+            c()
+            t("a&b<c")
     elif fam == "attrs_distinct":
         for k in range(n):
             o("a", {"id": "i%d" % k}, k)
@@ -180,6 +263,23 @@ def family_events(fam: str, n: int):
             t("t")
         for k in range(n):
             c()
+    elif fam == "style_head":
+        o("style", {}, None)
+        t("x")
+        c()
+        for k in range(n):
+            o("b", {}, k)
+        for k in range(n):
+            c()
+            t("t")
+    elif fam == "both_unclosed_end":
+        for k in range(n):
+            o("b", {}, k)
+        o("style", {}, None)
+        t("x")
+        ev.append(("c", "implicit"))
+        for k in range(n):
+            ev.append(("c", "implicit"))
     elif fam == "unclosed":
         o("a", {}, 0)
         for k in range(1, n):
@@ -267,12 +367,15 @@ def events_markup(ev) -> str:
             nm = names.pop()
             if nm is not None and len(e) == 1:       # ("c", "implicit"): the end tag is missing from the markup
                 out.append("</%s>" % nm)
+        elif len(e) > 2 and e[2] == "Comment":
+            out.append("<!--%s-->" % e[1])
         else:
-            out.append(e[1])
+            out.append(e[1].replace("&", "&amp;").replace("<", "&lt;"))
     return "".join(out)
 
 
-NAME_CODE = {"a": 1, "b": 2, "br": 3, "div": 4, "p": 5, "pre": 6, "rt": 7, "n": 8, "textarea": 9, "rp": 10, "template": 11}
+NAME_CODE = {"a": 1, "b": 2, "br": 3, "div": 4, "p": 5, "pre": 6, "rt": 7, "n": 8, "textarea": 9, "rp": 10, "template": 11,
+             "style": 12, "script": 13}
 ATTR_CODE = {}
 
 
@@ -282,6 +385,8 @@ def attr_code(at: dict) -> int:
     key = json.dumps(at, sort_keys=True)
     if key == '{"class": "c"}':
         return 1
+    if key == '{"class": "c k", "id": "i"}':
+        return 2
     return ATTR_CODE.setdefault(key, 100 + len(ATTR_CODE))
 
 
@@ -294,7 +399,7 @@ def events_tokens(ev, builderless: bool) -> str:
         elif e[0] == "c":
             out.append("c" if len(e) == 1 else "ci")
         else:
-            out.append("t%d" % (1 if e[1] == "x" else 2))
+            out.append("t%d" % (1 if e[1] == "x" else 3 if len(e) > 2 else 2))
     return " ".join(out)
 
 
@@ -303,7 +408,7 @@ def events_tokens(ev, builderless: bool) -> str:
 # --------------------------------------------------------------------------------------
 class H:
     """handles into one built tree"""
-    __slots__ = ("soup", "root", "top", "mid", "inner", "levels", "elems", "markup", "n", "extra", "args")
+    __slots__ = ("soup", "root", "top", "mid", "inner", "levels", "elems", "markup", "n", "extra", "args", "cfg", "deepstr")
 
 
 def _bs():
@@ -320,6 +425,7 @@ def build_raw(ev, builderless: bool) -> H:
     from bs4.element import Tag, NavigableString
     h = H()
     h.extra = []
+    h.cfg = {}
     if builderless:
         soup = None
         root = Tag(name="root")
@@ -330,6 +436,7 @@ def build_raw(ev, builderless: bool) -> H:
         builder = soup.builder
     h.soup, h.root = soup, root
     stack = [root]
+    deepest = [0, None]
     prev = None if not builderless else root
     levels = []
     elems = [root]
@@ -346,7 +453,13 @@ def build_raw(ev, builderless: bool) -> H:
             if e[3] is not None:
                 levels.append(el)
         else:
-            el = NavigableString(e[1])
+            if len(e) > 2 and e[2] == "Comment":
+                from bs4.element import Comment
+                el = Comment(e[1])
+            else:
+                el = NavigableString(e[1])
+            if len(stack) >= deepest[0]:
+                deepest[0], deepest[1] = len(stack), el
         elems.append(el)
         d = el.__dict__
         d["parent"] = parent
@@ -369,16 +482,18 @@ def build_raw(ev, builderless: bool) -> H:
     h.levels, h.elems = levels, elems
     h.n = len(levels)
     h.top, h.inner, h.mid = levels[0], levels[-1], levels[len(levels) // 2]
+    h.deepstr = deepest[1]
     return h
 
 
-def build_parsed(ev) -> H:
+def build_parsed(ev, cfg=None) -> H:
     from bs4 import BeautifulSoup
     from bs4.element import Tag
     h = H()
     h.extra = []
+    h.cfg = cfg or {}
     h.markup = events_markup(ev)
-    soup = BeautifulSoup(h.markup, "html.parser")
+    soup = BeautifulSoup(h.markup, "html.parser", **h.cfg)
     h.soup = h.root = soup
     # the chain levels, found iteratively along the element chain
     want = [e for e in ev if e[0] == "o"]
@@ -467,6 +582,17 @@ def _consume(it):
     return n
 
 
+def _api_build(h):
+    """the same nesting built through the API, top down: new_tag + append at every level, a trailing string after each"""
+    cur = _new_tag(h, "a")
+    for _ in range(h.n):
+        nxt = _new_tag(h, "a")
+        cur.append(nxt)
+        cur.append("t")
+        cur = nxt
+    return cur
+
+
 def _op_smooth(h):
     h.inner.append("p")
     h.inner.append("q")
@@ -528,17 +654,17 @@ def _op_pickle_tag(h):
 
 def _strainer_parse(h):
     from bs4 import BeautifulSoup, SoupStrainer
-    return BeautifulSoup(h.markup, "html.parser", parse_only=SoupStrainer(["a", "div", "pre", "rt"]))
+    return BeautifulSoup(h.markup, "html.parser", parse_only=SoupStrainer(["a", "div", "pre", "rt"]), **h.cfg)
 
 
 def _parse(h):
     from bs4 import BeautifulSoup
-    return BeautifulSoup(h.markup, "html.parser")
+    return BeautifulSoup(h.markup, "html.parser", **h.cfg)
 
 
 def _parse_bytes(h):
     from bs4 import BeautifulSoup
-    return BeautifulSoup(h.markup.encode("utf8"), "html.parser")
+    return BeautifulSoup(h.markup.encode("utf8"), "html.parser", **h.cfg)
 
 
 class InvariantBroken(Exception):
@@ -570,7 +696,78 @@ def _parse_invariant(h):
             r = BeautifulSoup.popTag(self)
             check(self)
             return r
-    return Checked(h.markup, "html.parser")
+    return Checked(h.markup, "html.parser", **h.cfg)
+
+
+class StateLeak(Exception):
+    pass
+
+
+def _state_refs(soup, d, budget=20000):
+    """tree objects (other than the document object itself) reachable from the state dict `d` through plain containers and
+    the attributes of non-tree objects (the builder, a strainer, …) — an iterative walk"""
+    from bs4.element import PageElement
+    hits, seen = [], set()
+    stack = [("state[%r]" % k, v) for k, v in d.items()]
+    while stack and budget > 0:
+        budget -= 1
+        path, v = stack.pop()
+        if v is soup or v is None or isinstance(v, (str, bytes, int, float, bool, type)) and not isinstance(v, PageElement):
+            continue
+        if id(v) in seen:
+            continue
+        seen.add(id(v))
+        if isinstance(v, PageElement):
+            hits.append("%s -> %s %r" % (path, type(v).__name__, getattr(v, "name", None) or str(v)[:10]))
+            continue
+        if isinstance(v, dict):
+            stack.extend(("%s[%r]" % (path, k), x) for k, x in v.items())
+            stack.extend(("%s.key" % path, k) for k in v)
+        elif isinstance(v, (list, tuple, set, frozenset)):
+            stack.extend(("%s[%d]" % (path, i), x) for i, x in enumerate(v))
+        elif hasattr(v, "__dict__") and not callable(v):
+            stack.extend(("%s.%s" % (path, k), x) for k, x in vars(v).items())
+    return hits
+
+
+def _parse_state_clean(h):
+    """After the parse no parser-side reference to a tree object may survive: both side stacks empty, the tag stack back to
+    the document object, and the state `__getstate__` hands to pickle free of Tag / NavigableString objects (in any
+    container, or behind the builder)."""
+    from bs4 import BeautifulSoup
+    soup = BeautifulSoup(h.markup, "html.parser", **h.cfg)
+    bad = []
+    if soup.preserve_whitespace_tag_stack:
+        bad.append("preserve_whitespace_tag_stack = %r" % [t.name for t in soup.preserve_whitespace_tag_stack])
+    if soup.string_container_stack:
+        bad.append("string_container_stack = %r" % [t.name for t in soup.string_container_stack])
+    if len(soup.tagStack) != 1 or soup.tagStack[0] is not soup or soup.currentTag is not soup:
+        bad.append("tagStack has %d entries" % len(soup.tagStack))
+    refs = _state_refs(soup, soup.__getstate__())
+    if refs:
+        bad.append("pickled state holds tree objects: " + "; ".join(refs[:3]))
+    if bad:
+        raise StateLeak("C11-state: after the parse " + " | ".join(bad))
+    return soup
+
+
+def _op_pickle_py(h):
+    """the pure-Python pickler: every level of object traversal is a Python frame the profile can see"""
+    import pickle
+    return pickle._loads(pickle._dumps(h.soup))
+
+
+def _op_pickle_py_insert0(h):
+    import pickle
+    h.soup.insert(0, "lead")
+    return pickle._loads(pickle._dumps(h.soup))
+
+
+def _op_pickle_py_copy(h):
+    import pickle, copy
+    c = copy.copy(h.soup)
+    h.extra.append(c)
+    return pickle._loads(pickle._dumps(c))
 
 
 def _position(parent, child):
@@ -643,6 +840,7 @@ OPS = {
     "parse_bytes": ("markup", _parse_bytes),
     "parse_strainer": ("markup", _strainer_parse),
     "parse_invariant": ("markup", _parse_invariant),
+    "parse_state_clean": ("markup", _parse_state_clean),
     # render
     "decode": ("tree", lambda h: h.top.decode()),
     "decode_html": ("tree", lambda h: h.top.decode(formatter="html")),
@@ -672,6 +870,9 @@ OPS = {
     "doc_pickle": ("doc", _op_pickle),
     "doc_pickle_insert0": ("doc", _op_pickle_insert0),
     "doc_pickle_copy": ("doc", _op_pickle_copy),
+    "doc_pickle_py": ("doc", _op_pickle_py),
+    "doc_pickle_py_insert0": ("doc", _op_pickle_py_insert0),
+    "doc_pickle_py_copy": ("doc", _op_pickle_py_copy),
     # text
     "get_text": ("tree", lambda h: h.top.get_text()),
     "get_text_sep_strip": ("tree", lambda h: h.top.get_text("|", strip=True)),
@@ -785,6 +986,28 @@ OPS = {
     "tw_find_all": ("tree", lambda h: h.mid.find_all(h.mid.name), _prep_twins),
     "tw_find_next_siblings": ("tree", lambda h: h.mid.find_next_siblings(h.mid.name), _prep_twins),
     "tw_copy_parent": ("tree", lambda h: __import__("copy").copy(h.args["parent"]), _prep_twins),
+    "nc_extend_tag": ("tree", lambda h: h.mid.extend(h.args["A"]), _prep_a),
+    # a string deep in the tree as the receiver
+    "str_extract": ("tree", lambda h: h.deepstr.extract()),
+    "str_replace_with": ("tree", lambda h: h.deepstr.replace_with("s", _new_tag(h))),
+    "str_insert_before": ("tree", lambda h: h.deepstr.insert_before(_new_tag(h))),
+    "str_insert_after": ("tree", lambda h: h.deepstr.insert_after("s")),
+    "str_wrap": ("tree", lambda h: h.deepstr.wrap(_new_tag(h))),
+    "str_find_parents": ("tree", lambda h: h.deepstr.find_parents("a")),
+    "str_find_parent": ("tree", lambda h: h.deepstr.find_parent("zzz")),
+    "str_find_all_previous": ("tree", lambda h: h.deepstr.find_all_previous("a")),
+    "str_find_next": ("tree", lambda h: h.deepstr.find_next("zzz")),
+    "str_get_text": ("tree", lambda h: (h.deepstr.get_text(), _consume(h.deepstr.strings), h.deepstr.text)),
+    "str_output_ready": ("tree", lambda h: (h.deepstr.output_ready("html"), h.deepstr.output_ready())),
+    "str_copy": ("tree", lambda h: __import__("copy").copy(h.deepstr)),
+    "str_decompose": ("tree", lambda h: h.deepstr.decompose()),
+    # an edit, then the whole tree is worked with again (the measured call includes both)
+    "after_move_decode": ("tree", lambda h: (h.top.append(h.mid), h.top.decode(), h.top.get_text())),
+    "after_wrap_decode": ("tree", lambda h: (h.mid.wrap(_new_tag(h)), h.top.prettify(), h.top.find_all("a", string="x"))),
+    "after_unwrap_copy": ("tree", lambda h: (h.mid.unwrap(), __import__("copy").copy(h.top))),
+    "after_replace_decode": ("tree", lambda h: (h.mid.replace_with(h.args["A"]), h.top.decode(), h.top.smooth()), _prep_a),
+    "api_build": ("tree", lambda h: _api_build(h)),
+    "doc_pickle_proto2": ("doc", lambda h: __import__("pickle").loads(__import__("pickle").dumps(h.soup, protocol=2))),
     # small protocol methods
     "len_bool_iter": ("tree", lambda h: (len(h.top), bool(h.top), _consume(iter(h.top)))),
     "contains_str": ("tree", lambda h: "zzz" in h.top),
@@ -803,14 +1026,16 @@ MID_OPS = {"decode_mid", "copy_mid", "string_getter_mid", "find_next_siblings", 
 INNER_OPS = {"decode_inner", "encode_inner", "copy_inner", "find_parents", "find_parents_name", "find_parent",
              "find_all_previous", "find_previous", "previous_elements", "parents", "extract_inner", "insert_before_inner",
              "insert_after_inner", "append_inner", "string_setter_inner"}
-LINKED_OPS = {"doc_pickle_insert0", "doc_pickle_copy"}
+LINKED_OPS = {"doc_pickle_insert0", "doc_pickle_copy", "doc_pickle_py_insert0", "doc_pickle_py_copy"}
 
 
 def receiver(op: str) -> str:
     if OPS[op][0] in ("markup", "doc") or op == "insert0_root":
         return "root"
-    if op.startswith(("nc_", "tw_")):
+    if op.startswith(("nc_", "tw_", "after_")):
         return "top" if op == "nc_replace_with_top" else "mid"
+    if op.startswith("str_"):
+        return "inner"
     return "mid" if op in MID_OPS else "inner" if op in INNER_OPS else "top"
 
 
@@ -818,14 +1043,20 @@ MARKUP_OPS = [k for k, v in OPS.items() if v[0] == "markup"]
 DOC_OPS = [k for k, v in OPS.items() if v[0] == "doc"]
 
 
-MARKUP_ONLY = ("unclosed", "unclosed_eof", "nest3_pre", "nest3_textarea", "nest3_rt", "nest3_rp", "nest3_template",
+MARKUP_ONLY = ("style_head", "both_unclosed_end", "unclosed", "unclosed_eof", "nest3_pre", "nest3_textarea", "nest3_rt", "nest3_rp", "nest3_template",
                "nestlead_pre", "nestlead_textarea", "nestlead_rt", "nestlead_template")
+
+
+def is_markup_only(fam: str) -> bool:
+    return "@" in fam or fam in MARKUP_ONLY
 
 
 def applicable(op: str, fam: str, build: str) -> bool:
     kind = OPS[op][0]
-    if fam in MARKUP_ONLY:
+    if is_markup_only(fam):
         return build == "parsed" and kind in ("markup", "doc")
+    if op == "api_build":
+        return fam in ("chain", "builderless") and build == "raw"
     if fam == "builderless":
         if build != "raw" or kind in ("markup", "doc"):
             return False
@@ -867,6 +1098,7 @@ def worker_main():
     assert os.path.realpath(bs4.__file__).startswith(os.path.realpath(repo)), (bs4.__file__, repo)
     fam = job["family"]
     builderless = fam == "builderless"
+    cfg = config_kwargs(split_family(fam)[1])
     out = sys.stdout
 
     def emit(**kw):
@@ -884,11 +1116,13 @@ def worker_main():
             h = H()                      # the parse operations need the markup only
             h.extra, h.elems, h.root, h.soup = [], [], None, None
             h.markup = events_markup(ev)
+            h.cfg = cfg
         else:
-            h = build_parsed(ev)
+            h = build_parsed(ev, cfg)
         return h
 
-    for op, bkind in job["jobs"]:
+    for op, bkind, *_deep in job["jobs"]:
+        deep_list = _deep[0] if _deep else job["deep"]
         fn = OPS[op][1]
         prep = OPS[op][2] if len(OPS[op]) > 2 else (lambda h: None)
         build = (lambda k, n, mo=(OPS[op][0] == "markup"): build0(k, n, mo))
@@ -937,7 +1171,7 @@ def worker_main():
                 sys.setprofile(None)
                 if h is not None:
                     teardown_h(h, r)
-        for n in job["deep"]:
+        for n in deep_list:
             h = r = None
             t0 = time.time()
             stage = "(while building the tree by parsing)"
@@ -969,10 +1203,34 @@ if __name__ == "__main__" and "--worker" in sys.argv:
 # --------------------------------------------------------------------------------------
 # check side
 # --------------------------------------------------------------------------------------
-def _jobs_for(fam: str):
+# quick tier: the near-copy / twin-sibling histories run on these families only (thorough: on every tree family)
+HISTORY_FAMILIES_QUICK = ("chain", "chain_text", "chain_sibling", "attrs_same", "repeated", "twins", "pre_nested", "builderless")
+
+
+# quick tier: these tree families run the core operations only (thorough: everything)
+LIGHT_FAMILIES_QUICK = ("attrs_multi", "chain_comment", "chain_entity", "chain_void", "lead_text", "alternating", "attrs_distinct",
+                        "pre_chain", "rt_nested")
+CORE_OPS = ("decode", "decode_mid", "prettify", "encode", "hash", "copy", "deepcopy", "copy_mid", "get_text", "stripped_strings",
+            "string_getter", "find_all_name_string", "find_all_attrs_string", "find_all", "find_parents", "find_all_next", "smooth",
+            "extract_mid", "append_inner", "insert_after_inner", "insert_before_inner", "replace_with_mid", "unwrap_mid", "wrap_mid",
+            "decompose_mid", "clear_top", "string_setter_mid", "move_subtree", "extend_mid", "index", "str_extract", "str_replace_with",
+            "str_find_parents", "str_output_ready", "str_wrap", "after_move_decode", "after_unwrap_copy", "eq_copy")
+HISTORY_OPS_QUICK_RANDOM = ("nc_replace_with", "nc_insert_before", "nc_append_to_parent", "nc_wrap_in_copy", "tw_index", "tw_extract",
+                            "tw_replace_with_sibling", "tw_decode", "tw_smooth", "tw_insert_after")
+
+
+def _jobs_for(fam: str, thorough: bool = True):
     jobs = []
     for op, v in OPS.items():
         kind = v[0]
+        if not thorough and fam in LIGHT_FAMILIES_QUICK and kind in ("tree", "rec") and op not in CORE_OPS:
+            continue
+        if not thorough and op.startswith(("nc_", "tw_")):
+            if fam.startswith("random:"):
+                if op not in HISTORY_OPS_QUICK_RANDOM:
+                    continue
+            elif fam not in HISTORY_FAMILIES_QUICK:
+                continue
         if applicable(op, fam, "raw"):
             jobs.append((op, "raw"))
         if kind in ("markup", "doc") and applicable(op, fam, "parsed"):
@@ -1022,7 +1280,7 @@ def run_worker(repo: str, fam: str, jobs, depths, deep, timeout=1500):
         if begun is not None:
             crashes.append({"op": begun[0], "build": begun[1], "rc": rc, "stderr": err[-600:]})
             done.add(begun)
-        todo = [j for j in todo if tuple(j) not in done]
+        todo = [j for j in todo if tuple(j[:2]) not in done]
     if hello is not None:
         hello["wall_s"] = round(time.time() - t_start, 1)
     return records, crashes, hello
@@ -1069,6 +1327,7 @@ def model_growth(fams, ops_by_fam):
     {(fam, op): (growth_new, growth_old)}; None where the accounting has no such operation"""
     from .common import Driver
     lines, keys = [], []
+    tables = {c: config_tables(c) for c in CONFIG_NAMES}
     for fam in fams:
         ops = ops_by_fam[fam]
         if not ops:
@@ -1079,7 +1338,10 @@ def model_growth(fams, ops_by_fam):
             toks = events_tokens(ev, bl)
             specs = " ".join("%s:%s:%d" % (op, recv_index(ev, receiver(op)), 1 if op in LINKED_OPS else 0) for op in ops)
             for variant in ("new", "old"):
-                lines.append("c11 depth %s %d %d %d %s %s" % (variant, 0 if bl else 1, mid_name_code(ev), len(ops), specs, toks))
+                pre, sc = tables[split_family(fam)[1]]
+                lines.append("c11 depth %s %d %d %s %s %d %s %s" % (variant, 0 if bl else 1, mid_name_code(ev),
+                                                                 ",".join(map(str, pre)) or "-", ",".join(map(str, sc)) or "-",
+                                                                 len(ops), specs, toks))
                 keys.append((fam, n, variant))
     replies = Driver().ask(lines)
     val = {}
@@ -1099,8 +1361,252 @@ def model_growth(fams, ops_by_fam):
     return out
 
 
+# --------------------------------------------------------------------------------------
+# stream "events": the real `_event_stream` against its Lean code mirror (stack machine) and the recursive skeleton
+# --------------------------------------------------------------------------------------
+def gen_bushy_events(r, raw: bool):
+    """a small random tree as an event list: nesting, runs of siblings, void tags (raw: sometimes WITH children), never two
+    adjacent strings (the parser would merge them)"""
+    ev, open_ = [], []
+    budget = r.randint(1, 40)
+    last_text = False
+    while budget > 0:
+        budget -= 1
+        k = r.random()
+        if open_ and k < 0.30:
+            ev.append(("c",))
+            open_.pop()
+            last_text = False
+        elif k < 0.50 and not last_text:
+            ev.append(("t", r.choice("xt")))
+            last_text = True
+        elif k < 0.62 and (not open_ or open_[-1] != "br"):
+            ev.append(("o", "br", {}, None))
+            if raw and r.random() < 0.25:
+                open_.append("br")        # a void tag that was given children through the API
+            else:
+                ev.append(("c",))
+            last_text = False
+        elif len(open_) < 8:
+            nm = r.choice(("a", "a", "b", "p", "pre", "div"))
+            ev.append(("o", nm, r.choice(({}, {}, {"class": "c"})), len(open_) if len(open_) == 0 and not any(e[0] == "o" and e[3] is not None for e in ev) else None))
+            open_.append(nm)
+            last_text = False
+    while open_:
+        ev.append(("c",))
+        open_.pop()
+    if not any(e[0] == "o" and e[3] is not None for e in ev):
+        ev = [("o", "a", {}, 0)] + ev + [("c",)]
+    return ev
+
+
+def real_events(recv, contents=False):
+    """`recv._event_stream()` with every element replaced by its position in document order below `recv` (positions found
+    by the harness' own walk over .contents, not by the navigation code)"""
+    from bs4.element import Tag
+    pos, stack, i = {}, [recv], 0
+    while stack:
+        e = stack.pop()
+        pos[id(e)] = i
+        i += 1
+        if isinstance(e, Tag):
+            stack.extend(reversed(e.contents))
+    name = {id(Tag.START_ELEMENT_EVENT): "S", id(Tag.END_ELEMENT_EVENT): "E", id(Tag.EMPTY_ELEMENT_EVENT): "X",
+            id(Tag.STRING_ELEMENT_EVENT): "T"}
+    it = recv.descendants if contents else None
+    return " ".join("%s%d" % (name[id(evt)], pos[id(el)]) for evt, el in recv._event_stream(it))
+
+
+def run_events_stream(ctx):
+    from .common import Driver
+    from bs4.element import Tag
+    r = ctx.rng("events")
+    n = ctx.n(300, 3000)
+    lines, real, cases = [], [], []
+    for t in range(n):
+        raw = r.random() < 0.5
+        ev = gen_bushy_events(r, raw)
+        h = build_raw(ev, False) if raw else build_parsed(ev)
+        toks = events_tokens(ev, False)
+        tags = [e for e in h.elems[1:] if isinstance(e, Tag)]
+        some = sorted(r.sample(range(len(tags)), min(len(tags), 3)))
+        picks = ["r"] + [str(i) for i in some] + ["c%d" % i for i in some[:2]]
+        for p in picks:
+            recv = h.root if p == "r" else tags[int(p.lstrip("c"))]
+            real.append(real_events(recv, contents=p.startswith("c")))
+            lines.append("c11 events %s %s" % (p, toks))
+            cases.append({"stream": "events", "build": "raw" if raw else "parsed", "recv": p, "events": toks,
+                          "markup": None if raw else h.markup})
+        teardown_h(h)
+    replies = Driver().ask(lines)
+    for got, rep, case in zip(real, replies, cases):
+        parts = [x.strip() for x in rep.split("|")]
+        nontriv = got.count("S") >= 2 and "X" in got or got.count("E") >= 3
+        ctx.case(("events", case["events"], case["recv"]) if nontriv else None,
+                 sample={"real": got[:120], "recv": case["recv"]} if nontriv and t % 50 == 0 else None)
+        ctx.count("events:" + ("with-void" if "X" in got else "plain"))
+        if len(parts) != 3 or parts[0] != got or parts[1] != got:
+            ctx.corr_disagreements += 1
+            ctx.violation("the real _event_stream and its Lean code mirror / recursive skeleton differ", case=case, expected=got,
+                          observed=rep, model=rep, stream="events", no_failing_input=True)
+        elif parts[2].split()[0] != parts[2].split()[1]:
+            ctx.corr_disagreements += 1
+            ctx.violation("mirror cost and evCmp differ (contradicts eventStreamImpl_cost)", case=case, observed=rep,
+                          stream="events", no_failing_input=True)
+
+
+# --------------------------------------------------------------------------------------
+# stream "state": the document object's __dict__ and __getstate__() against the Lean field-level mirror
+# --------------------------------------------------------------------------------------
+def classify_value(soup, v):
+    from bs4.element import PageElement
+    if _state_refs(soup, {"x": v}):
+        return "tree"
+    stack, seen = [v], set()
+    while stack:
+        x = stack.pop()
+        if x is soup:
+            return "self"
+        if id(x) in seen or isinstance(x, (str, bytes, int, float, type)) or x is None:
+            continue
+        seen.add(id(x))
+        if isinstance(x, dict):
+            stack.extend(x.values())
+        elif isinstance(x, (list, tuple, set, frozenset)):
+            stack.extend(x)
+    return "flat"
+
+
+def run_state_stream(ctx):
+    import copy
+    from .common import Driver
+    from bs4 import BeautifulSoup
+    r = ctx.rng("state")
+    tables = {c: config_tables(c) for c in CONFIG_NAMES}
+    fams = [f for f in FAMILIES if is_markup_only(f)] + ["chain_text", "pre_nested", "rt_nested", "repeated", "twins", "chain_void"]
+    lines, reals, cases = [], [], []
+    for fam in fams:
+        base, cfgname = split_family(fam)
+        for n in (1, 2, r.randint(3, 12)):
+            ev = family_events(fam, n)
+            markup = events_markup(ev)
+            toks = events_tokens(ev, False)
+            pre, sc = tables[cfgname]
+            for history in ("parsed", "insert0", "copy", "unpickled"):
+                soup = BeautifulSoup(markup, "html.parser", **config_kwargs(cfgname))
+                hist_toks, linked, most = toks, 0, 1
+                if history == "insert0":
+                    soup.insert(0, "lead")
+                    linked = 1
+                elif history == "copy":
+                    soup = copy.copy(soup)
+                    hist_toks, linked, most = "-", 1, 0           # the clone parsed "", then was appended to
+                elif history == "unpickled":
+                    import pickle
+                    soup = pickle.loads(pickle.dumps(soup))       # __setstate__: reset + _feed of the rendered markup
+                haskids = 1 if soup.contents else 0
+                before = {k: classify_value(soup, v) for k, v in soup.__dict__.items()}
+                after = {k: classify_value(soup, v) for k, v in soup.__getstate__().items()}
+                reals.append((before, after))
+                lines.append("c11 state new %d %d %d %s %s %s" % (linked, haskids, most, ",".join(map(str, pre)) or "-",
+                                                                  ",".join(map(str, sc)) or "-", hist_toks))
+                cases.append({"stream": "state", "family": fam, "n": n, "history": history, "markup": markup, "config": cfgname})
+                soup.decompose()
+    replies = Driver().ask(lines)
+    for (before, after), rep, case in zip(reals, replies, cases):
+        ctx.case(("state", case["family"], case["n"], case["history"]))
+        ctx.count("state:" + case["history"])
+        try:
+            mb, ma = [dict(x.split("=") for x in part.split()) for part in rep.split(" | ")]
+        except ValueError:
+            raise RuntimeError("driver reply malformed: " + rep[:200])
+        bad = []
+        for which, real, model in (("__dict__", before, mb), ("__getstate__()", after, ma)):
+            for k, v in model.items():
+                if k in real and real[k] != v:
+                    bad.append("%s[%r]: real %s, mirror %s" % (which, k, real[k], v))
+                if k not in real and v != "flat" and not (k == "_most_recent_element"):
+                    bad.append("%s[%r]: absent in the real dict, mirror %s" % (which, k, v))
+            for k, v in real.items():
+                if k not in model and v == "tree":
+                    bad.append("%s[%r] holds tree objects; the mirror does not know this attribute" % (which, k))
+            if which == "__getstate__()" and "_most_recent_element" in real:
+                bad.append("__getstate__() kept _most_recent_element")
+        leak = [k for k, v in after.items() if v == "tree"]
+        if leak:
+            ctx.violation("the state handed to pickle holds tree objects", case=case, expected="no Tag/NavigableString under any key",
+                          observed={k: after[k] for k in leak}, model=rep, stream="state")
+        elif bad:
+            ctx.corr_disagreements += 1
+            ctx.violation("the document object's __dict__/__getstate__() and the Lean field-level mirror differ", case=case,
+                          expected=rep, observed=bad[:6], model=rep, stream="state", no_failing_input=True)
+
+
+# --------------------------------------------------------------------------------------
+# stream "reads": for which tags does a search read the `.string` property? (the only tree-dependent call of matching)
+# --------------------------------------------------------------------------------------
+QUERIES = [
+    # (protocol: name, other, attrs, str), kwargs factory
+    (("1", "0", "-", "1"), lambda: dict(name="a", string="x")),
+    (("2", "0", "-", "1"), lambda: dict(name="b", string=_RX)),
+    (("-", "1", "-", "1"), lambda: dict(name=True, string="x")),
+    (("-", "2", "-", "1"), lambda: dict(name=_RX, string="x")),
+    (("-", "2", "-", "1"), lambda: dict(name=(lambda t: False), string="x")),
+    (("-", "1", "-", "1"), lambda: dict(name=(lambda t: True), string=lambda s: True)),
+    (("-", "0", "-", "1"), lambda: dict(string="x")),
+    (("-", "0", "1", "1"), lambda: dict(attrs={"class": "c"}, string="x")),
+    (("1", "0", "1", "1"), lambda: dict(name="a", attrs={"class": "c"}, string="t")),
+    (("1", "0", "-", "0"), lambda: dict(name="a")),
+    (("-", "0", "1", "0"), lambda: dict(attrs={"class": "c"})),
+    (("1", "0", "-", "1"), lambda: dict(name="a", string="x", limit=10 ** 6)),
+]
+
+
+def run_reads_stream(ctx):
+    from .common import Driver
+    from bs4.element import Tag
+    r = ctx.rng("reads")
+    n = ctx.n(150, 1500)
+    orig = Tag.__dict__["string"]
+    log = []
+    Tag.string = property(lambda self: (log.append(id(self)), orig.fget(self))[1], orig.fset)
+    lines, reals, cases = [], [], []
+    try:
+        for t in range(n):
+            raw = r.random() < 0.5
+            ev = gen_bushy_events(r, raw)
+            h = build_raw(ev, False) if raw else build_parsed(ev)
+            toks = events_tokens(ev, False)
+            pos, stack, i = {}, [h.root], 0
+            while stack:
+                e = stack.pop()
+                pos[id(e)] = i
+                i += 1
+                if isinstance(e, Tag):
+                    stack.extend(reversed(e.contents))
+            for qi in r.sample(range(len(QUERIES)), 4):
+                proto, mk = QUERIES[qi]
+                del log[:]
+                h.root.find_all(**mk())
+                reals.append(",".join(str(x) for x in sorted(pos[i] for i in set(log))) or "-")
+                lines.append("c11 reads %s %s" % (" ".join(proto), toks))
+                cases.append({"stream": "reads", "query": qi, "events": toks, "build": "raw" if raw else "parsed"})
+            teardown_h(h)
+    finally:
+        Tag.string = orig
+    replies = Driver().ask(lines)
+    for got, rep, case in zip(reals, replies, cases):
+        ctx.case(("reads", case["events"], case["query"]) if got != "-" else None)
+        ctx.count("reads:" + ("some" if got != "-" else "none"))
+        if got != rep:
+            ctx.corr_disagreements += 1
+            ctx.violation("the tags whose .string a search reads differ from the Lean mirror of matches_tag's exits", case=case,
+                          expected=rep, observed=got, model=rep, stream="reads", no_failing_input=True)
+
+
 def run(ctx):
     from .common import REPO
+    streams_ok = ctx.lean is None or ctx.lean.driver_ok
     ctx.rule = ("one case = (operation, shape family, construction) with the operation measured at every depth of the tier and "
                 "run once more beyond the recursion limit; non-trivial = the operation ran (did not reject the shape) at every "
                 "depth. Oracle: call depth grows by <= %d between consecutive depths (seeded random shapes, which are not homogeneous: "
@@ -1116,23 +1622,32 @@ def run(ctx):
         "operations: measured and recorded (eq_copy doubles as a positive control of the measurement), never flagged",
         "sys.getrecursionlimit() left at its default; every measurement in a subprocess",
     ]
-    depths = [50, 100, 200, 400] + ([800] if ctx.thorough else [])
+    depths = [50, 100, 200] + ([400, 800] if ctx.thorough else [])
     deep = [3000] + ([6000] if ctx.thorough else [])
     deep_all = deep
+
+    def op_deep(op, deep_fam):
+        # the histories copy the deep element once or twice before the measured call: half the depth (still beyond the limit)
+        return [max(x // 2, 1500) for x in deep_fam] if op.startswith(("nc_", "tw_")) else deep_fam
 
     def deep_of(fam):
         # copying a builder-less tree costs O(depth) per element (_is_xml walks up to the root): half the depth, still
         # well beyond the recursion limit
-        return [x // 2 for x in deep_all] if fam == "builderless" else deep_all
-    nrand = ctx.n(3, 10)
+        return [x // 2 for x in deep_all] if fam in ("builderless", "repeated") else deep_all
+    nrand = ctx.n(2, 10)
     r = ctx.rng("families")
     fams = list(FAMILIES) + ["random:%d:%d" % (ctx.seed, r.randrange(10 ** 6)) for _ in range(nrand)]
-    jobs = {fam: _jobs_for(fam) for fam in fams}
+    jobs = {fam: _jobs_for(fam, ctx.thorough) for fam in fams}
     t0 = time.time()
     with ThreadPoolExecutor(max_workers=min(16, len(fams))) as ex:
         # longest first (builder-less copies are quadratic, `repeated` has three times the elements, markup-only families are short)
-        order = sorted(fams, key=lambda f: (0 if f == "builderless" else 1 if f == "repeated" else 3 if f in MARKUP_ONLY else 2))
-        futs = {fam: ex.submit(run_worker, str(REPO), fam, jobs[fam], depths, deep_of(fam)) for fam in order}
+        order = sorted(fams, key=lambda f: (0 if f == "builderless" else 1 if f == "repeated" else 3 if is_markup_only(f) else 2))
+        futs = {fam: ex.submit(run_worker, str(REPO), fam, [(op, b, op_deep(op, deep_of(fam))) for op, b in jobs[fam]],
+                               depths, deep_of(fam)) for fam in order}
+        if streams_ok:                      # the in-process differential streams run while the workers measure
+            run_reads_stream(ctx)
+            run_events_stream(ctx)
+            run_state_stream(ctx)
         results = {fam: f.result() for fam, f in futs.items()}
     ctx.extra["measure_wall_s"] = round(time.time() - t0, 1)
 
@@ -1159,18 +1674,28 @@ def run(ctx):
     for fam in fams:
         records, crashes, _ = results[fam]
         fam_key = fam.split(":")[0]
-        deep = deep_of(fam)
+        deep_fam = deep_of(fam)
         for c in crashes:
             ctx.case(None)
             ctx.count("crash")
             ctx.violation("interpreter died during the operation (hard crash)",
-                          case={"operation": c["op"], "family": fam, "build": c["build"], "depths": depths, "deep": deep},
+                          case={"operation": c["op"], "family": fam, "build": c["build"], "depths": depths,
+                                "deep": op_deep(c["op"] or "", deep_fam)},
                           expected="completes", observed={"exit": c["rc"], "stderr_tail": c["stderr"]}, stream="measure",
                           kf=classify(c["op"], fam) if c["op"] else None)
         for rec in records:
             op, build = rec["op"], rec["build"]
+            deep = op_deep(op, deep_fam)
             kind = OPS[op][0]
             case = {"operation": op, "family": fam, "build": build, "depths": depths, "deep": deep}
+            if isinstance(rec.get("warm"), str) and "C11-state" in rec["warm"]:
+                ctx.case(None)
+                ctx.count("after-parse-state:leak")
+                ctx.violation("parser state leaks out of the parse: a tree object survives in the state handed to pickle",
+                              case=case | {"depths": [WARM_DEPTH], "deep": []},
+                              expected="both side stacks empty, tagStack = [document], no Tag/NavigableString in __getstate__()",
+                              observed=rec["warm"], stream="after-parse-state")
+                continue
             if isinstance(rec.get("warm"), str) and "C11-invariant" in rec["warm"]:
                 ctx.case(None)
                 ctx.count("invariant:broken")
@@ -1238,6 +1763,8 @@ def run(ctx):
                     parse_flagged[fam] = True
                 what = ("the invariant the parse bound rests on (side stacks = tag stack filtered by name) does not hold in the running parser"
                         if any(isinstance(x, str) and "C11-invariant" in x for x in ds + dp) else
+                        "parser state leaks out of the parse: a tree object survives in the state handed to pickle"
+                        if any(isinstance(x, str) and "C11-state" in x for x in ds + dp) else
                         "the PARSE that builds the tree for this operation fails" if build_failed else
                         "call depth grows with the nesting" if ints and not ok_growth else
                         "RecursionError/failure while measuring" if not ints else "RecursionError beyond the recursion limit")
@@ -1292,7 +1819,7 @@ def replay(path):
     if not c.get("operation"):
         print(json.dumps(v, indent=1)[:3000])
         return 1
-    records, crashes, hello = run_worker(repo, c["family"], [(c["operation"], c["build"])], c["depths"], c["deep"])
+    records, crashes, hello = run_worker(repo, c["family"], [(c["operation"], c["build"], c["deep"])], c["depths"], c["deep"])
     print("bs4:", hello and hello["bs4"])
     bad = bool(crashes)
     for cr in crashes:
